@@ -15,6 +15,19 @@ def _walk_expr(e, f):
             f.add("tuple_whole_use")
         if ty == "arr":
             f.add("affine_array")
+    elif k == "proj":
+        inner = e[1]
+        if inner[0] == "tup":
+            f.add("proj_on_tuple_display")
+        else:
+            f.add("proj_on_call_" + ("classical_aggregate" if inner[1] in ("meas2", "peek2", "meas_b") else "qubit_aggregate"))
+            if inner[1] == "peek2":
+                f.add("proj_operand_borrows")
+        if e[2].startswith("."):
+            f.add("proj_field_of_unnamed_struct")
+        if e[4]:
+            f.add("proj_drops_linear_component")
+        _walk_expr(inner, f)
     elif k == "ifx":
         f.add("cond_expr")
         if e[2][0] == "ifx" or e[3][0] == "ifx":
